@@ -177,11 +177,20 @@ where
             }
 
             if !inline {
-                ctx_lock.set_client_frames(
-                    create_frames(channel, session_id)
-                        .await
-                        .context("create frames")?,
-                );
+                match create_frames(channel, session_id).await {
+                    Ok(frames) => {
+                        ctx_lock.set_client_frames(frames);
+                    }
+                    Err(e) => {
+                        // a channel this listener does not offer: like the other requests it can not
+                        // serve, answer before closing
+                        let socket = ctx_lock.borrow_client_stream().unwrap();
+                        HttpResponse::new(400, "Bad Request")
+                            .write_to(socket)
+                            .await?;
+                        return Err(e).context("create frames");
+                    }
+                }
             }
         } else {
             HttpResponse::new(400, "Bad Request")
